@@ -489,8 +489,11 @@ matrix * dense_concat(PyObject *L, int id_arg)
 
         } else {
 
-          convert_num[id]((unsigned char*)MAT_BUF(A) + (mk+(nk+jk)*m)*E_SIZE[id],
-              Lij, 1, 0);
+          if (convert_num[id]((unsigned char*)MAT_BUF(A) + (mk+(nk+jk)*m)*E_SIZE[id],
+              Lij, 1, 0)) {
+            Py_DECREF(A);
+            return NULL;
+          }
         }
       }
       mk += blk_nrows;
@@ -880,7 +883,10 @@ matrix_ass_subscr(matrix* self, PyObject* args, PyObject* val)
     }
     number n;
     if (PY_NUMBER(val) || (Matrix_Check(val) && MAT_LGT(val)==1)) {
-      convert_num[id](&n, val, (Matrix_Check(val) ? 0 : 1), 0);
+      if (convert_num[id](&n, val, (Matrix_Check(val) ? 0 : 1), 0)) {
+        if (decref_val) { Py_DECREF(val); }
+        free_lists_exit(args,(PyObject *)NULL,Il,(PyObject *)NULL,-1);
+      }
 
       for (i=0; i<MAT_LGT(Il); i++)
         write_num[id](self->buffer,CWRAP(MAT_BUFI(Il)[i],MAT_LGT(self)),&n,0);
